@@ -159,10 +159,13 @@ Definition cmp3 (a b : value) : option comparison :=
   | _, _ => None
   end.
 
-(* ---------- orderability (ORDER BY, min, max): a total order ---------- *)
+(* ---------- orderability (ORDER BY, min, max): a total preorder ----------
+   List < String < Boolean < Integer < null.  openCypher leaves the relative order of
+   nodes and of relationships to the implementation; here they sort with null and compare
+   equal to each other, so no particular order among them is demanded. *)
 Definition rank (v : value) : N :=
   match v with
-  | VNode _ => 0 | VRel _ => 1 | VList _ => 2 | VStr _ => 3 | VBool _ => 4 | VInt _ => 5 | VNull => 6
+  | VList _ => 2 | VStr _ => 3 | VBool _ => 4 | VInt _ => 5 | VNull | VNode _ | VRel _ => 6
   end.
 
 Fixpoint ord_cmp (a b : value) : comparison :=
@@ -171,8 +174,6 @@ Fixpoint ord_cmp (a b : value) : comparison :=
   | VBool x, VBool y => match x, y with false, true => Lt | true, false => Gt | _, _ => Eq end
   | VInt x, VInt y => Z.compare x y
   | VStr x, VStr y => lex_cmp x y
-  | VNode x, VNode y => N.compare x y
-  | VRel x, VRel y => N.compare x y
   | VList x, VList y =>
       (fix go (x y : list value) : comparison :=
          match x, y with
@@ -183,6 +184,17 @@ Fixpoint ord_cmp (a b : value) : comparison :=
          end) x y
   | _, _ => N.compare (rank a) (rank b)
   end.
+
+(* ---------- configuration ----------
+   The reference semantics is [ref_cfg].  [eng_cfg] switches on the deviations of the
+   pinned engine that are recorded as known findings (known_findings.txt), so that a case
+   in such a class is still compared - against what the engine is known to do. *)
+Record cfg := CF {
+  cf_eq3_lists : bool;       (* = and <> on two lists are three-valued (a null inside makes them unknown) *)
+  cf_path_iso : bool;        (* relationship isomorphism also across the comma-separated paths of a MATCH *)
+  cf_with_empty_agg : bool   (* WITH <aggregates only> over no rows yields one row *) }.
+Definition ref_cfg : cfg := CF true true true.
+Definition eng_cfg : cfg := CF false false false.
 
 (* ---------- expressions ---------- *)
 Inductive cmpop := OEq | ONe | OLt | OLe | OGt | OGe.
@@ -233,10 +245,16 @@ Definition eval_arith (o : arith) (a b : value) : outcome value :=
   | _, _ => ErrT
   end.
 
-Definition eval_cmp (o : cmpop) (a b : value) : value :=
+Definition eq_cfg (cf : cfg) (a b : value) : tri :=
+  match a, b with
+  | VList _, VList _ => if cf_eq3_lists cf then eq3 a b else Some (value_eqb a b)
+  | _, _ => eq3 a b
+  end.
+
+Definition eval_cmp (cf : cfg) (o : cmpop) (a b : value) : value :=
   match o with
-  | OEq => tri_value (eq3 a b)
-  | ONe => tri_value (not3 (eq3 a b))
+  | OEq => tri_value (eq_cfg cf a b)
+  | ONe => tri_value (not3 (eq_cfg cf a b))
   | _ =>
       match a, b with
       | VNull, _ | _, VNull => VNull
@@ -297,45 +315,45 @@ Definition eval_prop (g : graph) (v : value) (k : N) : outcome value :=
 Definition bool2 (f : tri -> tri -> tri) (a b : value) : outcome value :=
   obind (to_tri a) (fun x => obind (to_tri b) (fun y => Ok (tri_value (f x y)))).
 
-Fixpoint eval_expr (g : graph) (ps : penv) (r : row) (e : expr) : outcome value :=
+Fixpoint eval_expr (cf : cfg) (g : graph) (ps : penv) (r : row) (e : expr) : outcome value :=
   match e with
   | ELit v => Ok v
   | EVar x => match alookup x r with Some v => Ok v | None => ErrT end
   | EProp x k => match alookup x r with Some v => eval_prop g v k | None => ErrT end
   | EParam p => match alookup p ps with Some v => Ok v | None => ErrT end
   | ECmp o a b =>
-      obind (eval_expr g ps r a) (fun x => obind (eval_expr g ps r b) (fun y => Ok (eval_cmp o x y)))
-  | EAnd a b => obind (eval_expr g ps r a) (fun x => obind (eval_expr g ps r b) (fun y => bool2 and3 x y))
-  | EOr a b => obind (eval_expr g ps r a) (fun x => obind (eval_expr g ps r b) (fun y => bool2 or3 x y))
-  | EXor a b => obind (eval_expr g ps r a) (fun x => obind (eval_expr g ps r b) (fun y => bool2 xor3 x y))
-  | ENot a => obind (eval_expr g ps r a) (fun x => obind (to_tri x) (fun t => Ok (tri_value (not3 t))))
-  | EIsNull a => obind (eval_expr g ps r a) (fun x => Ok (VBool (value_eqb x VNull)))
-  | EIsNotNull a => obind (eval_expr g ps r a) (fun x => Ok (VBool (negb (value_eqb x VNull))))
+      obind (eval_expr cf g ps r a) (fun x => obind (eval_expr cf g ps r b) (fun y => Ok (eval_cmp cf o x y)))
+  | EAnd a b => obind (eval_expr cf g ps r a) (fun x => obind (eval_expr cf g ps r b) (fun y => bool2 and3 x y))
+  | EOr a b => obind (eval_expr cf g ps r a) (fun x => obind (eval_expr cf g ps r b) (fun y => bool2 or3 x y))
+  | EXor a b => obind (eval_expr cf g ps r a) (fun x => obind (eval_expr cf g ps r b) (fun y => bool2 xor3 x y))
+  | ENot a => obind (eval_expr cf g ps r a) (fun x => obind (to_tri x) (fun t => Ok (tri_value (not3 t))))
+  | EIsNull a => obind (eval_expr cf g ps r a) (fun x => Ok (VBool (value_eqb x VNull)))
+  | EIsNotNull a => obind (eval_expr cf g ps r a) (fun x => Ok (VBool (negb (value_eqb x VNull))))
   | EArith o a b =>
-      obind (eval_expr g ps r a) (fun x => obind (eval_expr g ps r b) (fun y => eval_arith o x y))
+      obind (eval_expr cf g ps r a) (fun x => obind (eval_expr cf g ps r b) (fun y => eval_arith o x y))
   | ENeg a =>
-      obind (eval_expr g ps r a) (fun x =>
+      obind (eval_expr cf g ps r a) (fun x =>
         match x with VInt z => mk_int (- z) | VNull => Ok VNull | _ => ErrT end)
   | EIn a b =>
-      obind (eval_expr g ps r a) (fun x => obind (eval_expr g ps r b) (fun y =>
+      obind (eval_expr cf g ps r a) (fun x => obind (eval_expr cf g ps r b) (fun y =>
         match y with VList l => Ok (tri_value (in3 x l)) | VNull => Ok VNull | _ => ErrT end))
   | EList l =>
       obind ((fix go (l : list expr) : outcome (list value) :=
                 match l with
                 | [] => Ok []
-                | a :: l' => obind (eval_expr g ps r a) (fun x => obind (go l') (fun xs => Ok (x :: xs)))
+                | a :: l' => obind (eval_expr cf g ps r a) (fun x => obind (go l') (fun xs => Ok (x :: xs)))
                 end) l) (fun xs => Ok (VList xs))
   | EFn f args =>
       obind ((fix go (l : list expr) : outcome (list value) :=
                 match l with
                 | [] => Ok []
-                | a :: l' => obind (eval_expr g ps r a) (fun x => obind (go l') (fun xs => Ok (x :: xs)))
+                | a :: l' => obind (eval_expr cf g ps r a) (fun x => obind (go l') (fun xs => Ok (x :: xs)))
                 end) args) (fun xs => eval_fn g f xs)
   end.
 
 (* a predicate as WHERE reads it: Some true keeps the row *)
-Definition eval_pred (g : graph) (ps : penv) (r : row) (e : expr) : outcome bool :=
-  obind (eval_expr g ps r e) (fun v => obind (to_tri v) (fun t =>
+Definition eval_pred (cf : cfg) (g : graph) (ps : penv) (r : row) (e : expr) : outcome bool :=
+  obind (eval_expr cf g ps r e) (fun v => obind (to_tri v) (fun t =>
     Ok (match t with Some true => true | _ => false end))).
 
 (* ---------- parameter inlining (C35) ---------- *)
